@@ -298,11 +298,24 @@ def run_readbytes(c):
     return out
 
 
+class NoClearBackend(joblib._store_backends.FileSystemStoreBackend):
+    """a store that does not delete (public API: register_store_backend): clear_item is a no-op"""
+
+    def clear_item(self, call_id):
+        pass
+
+
+joblib.register_store_backend("verif_noclear", NoClearBackend)
+LOAD_LIMIT = 300   # load_item calls within ONE cached call: beyond that it is a retry loop, not a recovery
+
+
 def run_memory(c):
     d = tempfile.mkdtemp(prefix="verif-c14m-")
+    side = tempfile.mkdtemp(prefix="verif-c14s-")
     try:
         comp = tuple(c["compress"]) if isinstance(c["compress"], list) else c["compress"]
-        mem = joblib.Memory(d, verbose=0, compress=comp)
+        und = c.get("undeletable")
+        mem = joblib.Memory(d, verbose=0, compress=comp, **({"backend": "verif_noclear"} if und == "noclear" else {}))
         calls = []
 
         def f(x):
@@ -315,8 +328,32 @@ def run_memory(c):
         v0 = cf(1)
         if not deep_eq(v0, truth) or calls != [1]:
             return {"harness_error": "first call did not compute"}
-        path = os.path.join(cf.store_backend.location, cf.func_id, cf._get_args_id(1), "output.pkl")
+        entry = os.path.join(cf.store_backend.location, cf.func_id, cf._get_args_id(1))
+        if und == "symlink":
+            # the entry directory is a symlink: shutil.rmtree refuses symlinks, so the entry cannot be deleted
+            real = os.path.join(side, "entry")
+            shutil.move(entry, real)
+            os.symlink(real, entry)
+        path = os.path.join(entry, "output.pkl")
         orig = open(path, "rb").read()
+        # deterministic detector of a retry loop: count the loads of one cached call
+        loads = [0]
+        real_load = cf.store_backend.load_item
+
+        def counting_load(*a, **kw):
+            loads[0] += 1
+            if loads[0] > LOAD_LIMIT:
+                raise Spin("load_item called %d times within one cached call" % loads[0])
+            return real_load(*a, **kw)
+        cf.store_backend.load_item = counting_load
+
+        def call():
+            loads[0] = 0
+            if not c.get("werror"):
+                return cf(1)
+            with warnings.catch_warnings():
+                warnings.simplefilter("error")   # as under `python -W error`
+                return cf(1)
         res = []
         damages = []
         for dmg in c["damage"]:
@@ -341,7 +378,7 @@ def run_memory(c):
             with open(path, "wb") as fh:
                 fh.write(bad)
             del calls[:]
-            r = guarded(lambda: cf(1))
+            r = guarded(call)
             if r[0] == "ok":
                 code = "E" if deep_eq(r[1], truth) else "D"
             else:
@@ -349,7 +386,7 @@ def run_memory(c):
             recomputed = calls == [1]
             # the entry must be usable afterwards whatever happened
             del calls[:]
-            r2 = guarded(lambda: cf(1))
+            r2 = guarded(call)
             after = "E" if r2[0] == "ok" and deep_eq(r2[1], truth) else ("D" if r2[0] == "ok" else r2[0] + ":" + str(r2[1]))
             res.append({"damage": dmg, "len": len(bad), "orig_len": len(orig), "code": code, "recomputed": recomputed,
                         "after": after, "after_recomputed": calls == [1], "strict_prefix": len(bad) < len(orig)})
@@ -360,6 +397,7 @@ def run_memory(c):
         return {"results": res}
     finally:
         shutil.rmtree(d, ignore_errors=True)
+        shutil.rmtree(side, ignore_errors=True)
 
 
 def main():
